@@ -149,9 +149,9 @@ def main():
                 r["unit"] = rep["unit"]
                 (canaries if r["canary"] else guards if r["guard"] else obligations).append(r)
             names = sorted({r["name"] for r in rep["results"]})
-            if a.record_names: exp_names[rep["unit"]] = names
+            if a.record_names: exp_names[pid + ":" + rep["unit"]] = names
             else:
-                missing = [n for n in exp_names.get(rep["unit"], []) if n not in names]
+                missing = [n for n in exp_names.get(pid + ":" + rep["unit"], []) if n not in names]
                 if missing and not rep.get("error"): engine_errors.append(f"{rep['unit']}: obligations no longer generated: {missing[:4]}")
             if not rep["results"] and not rep.get("error"): engine_errors.append(f"{rep['unit']}: zero obligations")
         if a.record_names:
